@@ -20,7 +20,7 @@ ASSUMPTIONS = ["latest admissible rejection stage per fault: parse for literal f
                "expand_macros for faults arising by macro substitution, run otherwise",
                "zero/negative strides and negative loop counts are not in the statement and not generated"]
 TIERS = {"quick": {"shards": 8, "budget_s": 45}, "thorough": {"shards": 16, "budget_s": 360}}
-REQUIRE = {"faulty-cases": 2000, "twin-cases": 2000, "twin-accepted": 2000, "precedence-probes": 1}
+REQUIRE = {"internal-context-names-observed": 1, "faulty-cases": 2000, "twin-cases": 2000, "twin-accepted": 2000, "precedence-probes": 1}
 
 STAGES = ["parse", "fill_in_let", "expand_macros", "run"]
 
@@ -91,6 +91,40 @@ def base(rng, n=None, let_size=False):
 
 def wrap(hdr, stmts, macros=()):
     return ("circuit",) + tuple(hdr) + tuple(macros) + (("gate", "prepare_all"),) + tuple(stmts) + (("gate", "measure_all"),)
+
+
+# Names that the library itself keeps in its name context while building (observed at run time by a
+# hook on Builder.build while a probe program with every kind of block is parsed).  A program must
+# not be able to use such a name as if it were a declared identifier.
+HARVEST = set()
+PROBE_NAMES = {"pa", "pq", "pr", "pm", "px", "pn"}
+PROBE = ("let pn 2\nregister pq[2]\nmap pa pq[0:2]\nmap pr pq[1]\nmacro pm px { < X px > ; loop 2 { X px } }\n"
+         "{ X pq[0] }\n< X pq[0] | { X pq[1] } >\nloop pn { < X pa[0] > }\nsubcircuit { pm pr }\npm pq[0]\n")
+_IDENT = __import__("re").compile(r"^[A-Za-z_][A-Za-z0-9_]*$")
+
+
+def harvest_internal_names():
+    from jaqalpaq.core import circuitbuilder as cb
+
+    orig = cb.Builder.build
+
+    def build(self, expression, context=None, gate_context=None):
+        if context is not None:
+            HARVEST.update(k for k in context if isinstance(k, str))
+        return orig(self, expression, context, gate_context)
+
+    cb.Builder.build = build
+    try:
+        ok = lib.outcome(lib.parse, PROBE)[0] == "ok" and lib.outcome(lib.parse, PROBE, X.native())[0] == "ok"
+    finally:
+        cb.Builder.build = orig
+    if not ok:
+        return [], []
+    internal = sorted(k for k in HARVEST if k not in PROBE_NAMES)
+    return internal, [k for k in internal if _IDENT.match(k)]
+
+
+INTERNAL_IDENTIFIERS = []
 
 
 def gen_cases(rng):
@@ -185,6 +219,27 @@ def gen_cases(rng):
         add(fault + ":let", "fill_in_let", wrap(lets + hdr + [ml], use), wrap(glets + hdr + [ml], use))
         add(fault + ":override", "fill_in_let", wrap(glets + hdr + [ml], use), wrap(glets + hdr + [ml], use),
             ov={"s0": m[3], "s1": m[4]}, twin_ov={"s0": 0, "s1": n})
+    # slices counting down: first element beyond the source / last element below zero; the used element is in range
+    # of the alias itself, so only the slice can be blamed
+    gdown = ("map", "al", "q", n - 1, -1, -1)
+    for fault, m, idx in (("slice-down-start-beyond", ("map", "al", "q", n + 1, 0, -1), 2),
+                          ("slice-down-start-at-size", ("map", "al", "q", n, 0, -1), 1),
+                          ("slice-down-below-zero", ("map", "al", "q", 1, -3, -1), 0),
+                          ("slice-down-stride-below-zero", ("map", "al", "q", n - 1, -n - 2, -2), 0)):
+        use_d = [("gate", "X", ("array_item", "al", idx))]
+        use_g = [("gate", "X", ("array_item", "al", min(idx, n - 1)))]
+        add(fault + ":literal", "parse", wrap(hdr + [m], use_d), wrap(hdr + [gdown], use_g))
+        lets = [("let", "s0", m[3]), ("let", "s1", m[4]), ("let", "s2", m[5])]
+        glets = [("let", "s0", n - 1), ("let", "s1", -1), ("let", "s2", -1)]
+        ml = ("map", "al", "q", "s0", "s1", "s2")
+        add(fault + ":let", "fill_in_let", wrap(lets + hdr + [ml], use_d), wrap(glets + hdr + [ml], use_g))
+        add(fault + ":override", "fill_in_let", wrap(glets + hdr + [ml], use_d), wrap(glets + hdr + [ml], use_g),
+            ov={"s0": m[3], "s1": m[4], "s2": m[5]}, twin_ov={"s0": n - 1, "s1": -1, "s2": -1})
+    # a negative index that becomes known late (let, override), through an alias that does not start at zero
+    if n >= 3:
+        ah2 = hdr + [("map", "al", "q", 1, n, 1)]
+        add("alias-index-let:negative-through-offset-alias", "fill_in_let", wrap([("let", "i", -1)] + ah2, [("gate", "X", ("array_item", "al", "i"))]),
+            wrap([("let", "i", 0)] + ah2, [("gate", "X", ("array_item", "al", "i"))]))
     # alias of alias reaching outside its source
     if n >= 3:
         a1 = ("map", "a1", "q", 0, n - 1, 1)
@@ -224,6 +279,20 @@ def gen_cases(rng):
             ("let-used-before-definition", [("register", "q", "late"), ("let", "late", 2)], [("gate", "X", ("array_item", "q", 0))]),
     ):
         add("undefined:" + fault, "parse", wrap(h, st), ok)
+    # ... the same with names a careless implementation might resolve: Python built-ins and the names the
+    # builder was seen to keep in its own context, used in every kind of block
+    q0_ = ("array_item", "q", 0)
+    for name in ["True", "None", "self", "all", "__class__", "context"] + INTERNAL_IDENTIFIERS:
+        kind = "internal-name" if name in INTERNAL_IDENTIFIERS else "python-name"
+        uses = [("gate", "Rx", q0_, name), ("gate", "X", ("array_item", "q", name))]
+        for u in uses:
+            for where, st in (("top", [u]), ("seq", [("sequential_block", u)]), ("par", [("parallel_block", u)]),
+                              ("loop", [("loop", 2, ("sequential_block", u))]),
+                              ("nested", [("parallel_block", ("sequential_block", u, ("gate", "X", q0_)))])):
+                add("undefined:%s:%s" % (kind, where), "parse", wrap(hdr, st), ok)
+        add("undefined:%s:sub" % kind, "parse", ("circuit",) + tuple(hdr) + (("subcircuit_block", "", uses[0]),), ok)
+        add("undefined:%s:macro-body" % kind, "parse",
+            wrap(hdr, [("gate", "mu", q0_)], [("macro", "mu", "a", ("sequential_block", ("gate", "Rx", "a", name)))]), ok)
     # ---- F5: double definitions ---------------------------------------------------------------
     for fault, h, macros in (
             ("let-let", [("let", "th", 1.0)] + hdr, []),
@@ -391,6 +460,11 @@ def shard(ctx):
     rec = ctx.rec
     monitors.install_contracts()
     n = ctx.scale(160, 4000)
+    internal, usable = harvest_internal_names()
+    INTERNAL_IDENTIFIERS[:] = usable
+    rec.note("names_the_builder_keeps_in_its_context", internal)
+    rec.count("internal-context-names-observed", len(internal))
+    rec.count("internal-context-names-that-are-legal-identifiers", len(usable))
     i = 0
     while i < n and not rec.expired():
         i += 1
